@@ -55,7 +55,11 @@ PROPS = {
     "C17": dict(streams=[("C17", 1.0)], model=["M:hasrtl", "M:dir", "M:pure"], quick=20000, thorough=600000),
     "C18": dict(streams=[("C18", 1.0)], model=["M:charat", "M:iter", "M:deiter"], quick=30000, thorough=1000000),
     "C19": dict(streams=[("C19", 1.0)], model=["M:level", "M:ver"], quick=127 + 256 + 2000, thorough=127 + 256 + 100000, exhaustive=True),
-    "C20": dict(streams=[("C20", 1.0)], model=[], quick=3000, thorough=60000),
+    # every feature build is tied to the SAME Model (bidi + line operations through the driver), and the builds'
+    # digests over identical generated texts are compared with each other
+    "C20": dict(streams=[("C20", 0.4), ("C01", 0.3), ("C06", 0.3)],
+                model=["M:levels", "M:classes", "M:paras", "M:rl", "M:rpc", "M:runs", "M:druns", "M:ro", "M:panic"],
+                quick=3000, thorough=60000, spec_extra=["S:C01", "S:C03", "S:C05", "S:C06"]),
 }
 
 def _exh(alpha, maxlen):
